@@ -2,6 +2,7 @@ package server
 
 import (
 	"encoding/base64"
+	"errors"
 	"sync"
 	"sync/atomic"
 	"time"
@@ -13,6 +14,9 @@ import (
 )
 
 const defaultUploadInterval = 1 * time.Minute
+
+// ErrNonPositiveRate is returned by GetUser for a user record whose UpRate or DownRate is not positive
+var ErrNonPositiveRate = errors.New("user has a non-positive bandwidth rate")
 
 // userPanel is used to authenticate new users and book keep active users
 type userPanel struct {
@@ -71,6 +75,11 @@ func (panel *userPanel) GetUser(UID []byte) (*ActiveUser, error) {
 	upRate, downRate, err := panel.Manager.AuthenticateUser(UID)
 	if err != nil {
 		return nil, err
+	}
+	if upRate <= 0 || downRate <= 0 {
+		// the rate limiter panics on a non-positive rate; such a record (the admin API accepts it)
+		// must not be able to bring the server down when its owner connects
+		return nil, ErrNonPositiveRate
 	}
 	valve := mux.MakeValve(upRate, downRate)
 	user := &ActiveUser{
